@@ -57,5 +57,5 @@ static void prop(Tape &t, Ctx &c) {
     if ((rc >= 0 && nok > 0) || deep) c.nontrivial(fmt("x509:%d:%d:%llx", rc >= 0, flags, (unsigned long long) shape));
     if (rc >= 0 && nok > 0) c.sample(fmt("psX509ParseCert flags=%d len=%zu rc=%d certs=%d ok=%d", flags, in.n, rc, ncerts, nok));
 }
-VF_TARGET("C09.x509_cert", prop, 2048, 20)
+VF_TARGET("C09.x509_cert", prop, 2048, 12)
 namespace vf { void vf_global_init(int, char **) { psCryptoOpen(PSCRYPTO_CONFIG); } }
